@@ -164,14 +164,20 @@ class DiameterAssociation(object):
 
     def recv_message_from_queue(self) -> None:
         while not self._stop_threads and self.transport:
-            self.transport._recv_data_available.wait(timeout=1)
+            #: close() drops self.transport from another thread at any time.
+            transport = self.transport
+            if transport is None:
+                break
+
+            transport._recv_data_available.wait(timeout=1)
 
             self.lock.acquire()
 
             if self.transport is None:
+                self.lock.release()
                 break
 
-            data_stream = self.transport.get_recv_data_stream()
+            data_stream = transport.get_recv_data_stream()
 
             diameter_conn_logger.debug("Grabbing data stream from "\
                                        "Transport Layer to Diameter Layer.")
@@ -187,7 +193,7 @@ class DiameterAssociation(object):
             except AVPParsingError:
                 diameter_conn_logger.exception(f"AVPParsingError has "\
                                                f"been raised due stream: "\
-                                               f"{self.transport._recv_data_stream.hex()}")
+                                               f"{data_stream.hex()}")
 
             self.lock.release()
 
